@@ -135,7 +135,7 @@ def cards(spec):
         del th["RenScaleVar"]
         del th["FactScaleVar"]
     elif leg == "qed-keys":
-        th["QED"] = 0
+        th["QED"] = 1  # a non-zero QED order: the upgraded `order` entry must survive a second upgrade
     elif leg == "absent-keys":
         del th["PTODIS"]
         del th["FONLLParts"]
